@@ -173,8 +173,9 @@ def run(ctx):
             both_const += 1
             # the neutral language is the answer only once the language table has been searched in vain
             fs = Sf.bool_facts_at(b)
-            exhausted = any(re.search(r"Iterator>?::next\)?$|::next\)$", e) and tr == ("==", 0) for (e, tr, g) in fs)
-            other = [e[:80] for (e, tr, g) in fs if not re.search(r"::next\)?$", e)]
+            SRCH = r"Iterator>?::next\)?$|::next\)$|Iterator>?::(find|find_map|position)\)$"
+            exhausted = any(re.search(SRCH, e) and tr in (("==", 0), ("notin", (1,))) for (e, tr, g) in fs)
+            other = [e[:80] for (e, tr, g) in fs if not re.search(SRCH, e)]
             ctx.check(exhausted and not other, "LANG-FALLBACK", "neutral result only after the table is exhausted", "",
                       "from_tag returns the neutral language on a path that has not searched the whole language table (conditions: %s): a tag that is in the table "
                       "can map to code 0" % (other or "no loop-exhaustion fact"), f_from.loc(t["sp"]), fn=f_from.name, key="LANG-FALLBACK|neutral-early")
